@@ -170,6 +170,7 @@ class VM:
         self.body_id = 0
         self.body_counter = 0
         self.depth = 0                          # CALL/EVAL nesting
+        self.top_calls = 0                      # CALLs executed at the top level of the scripts of this run (cumulative)
         self.scope = 0                          # >0 inside IF/TRY/EXCEPT/LOOP bodies (for taint)
 
     # ------------------------------------------------------------ stack primitives
@@ -286,10 +287,7 @@ class VM:
                 else:
                     self.tainted_defs.discard(handle)
             elif name == 'CALL':
-                if self.depth >= env.limit:
-                    raise RErr('limit:calls')
-                if env.n_calls >= env.limit:
-                    raise Unspec('cumulative call budget accounting')
+                self.call_gate()
                 handle = rd1()
                 if handle in self.tainted_defs:
                     raise Unspec('call of a function (re)defined inside a conditional/try/loop body')
@@ -300,6 +298,8 @@ class VM:
                 if handle not in self.defs:
                     raise RErr('undefined', 'call of undefined function')
                 env.n_calls += 1
+                if self.depth == 0 and self.scope == 0:
+                    self.top_calls += 1
                 self.depth += 1
                 saved_scope = self.scope
                 saved_lex = self.code_lex
@@ -405,6 +405,21 @@ class VM:
                 raise Unspec('unmodelled op ' + name)
         return END
 
+    def call_gate(self):
+        """limit check of CALL / EVAL. At the top level of a script the documented cumulative count is exact: the number
+        of top-level CALLs executed so far in this and the earlier scripts of the run (docs.md, run_auth_scripts: "the
+        callstack_limit is enforced across the total execution via a cumulative callstack_count"). Inside bodies the
+        nesting depth must not exceed the limit, and the bookkeeping beyond that is left open."""
+        env = self.env
+        if self.depth == 0 and self.scope == 0:
+            if self.top_calls >= env.limit:
+                raise RErr('limit:calls')
+            return
+        if self.depth >= env.limit:
+            raise RErr('limit:calls')
+        if env.n_calls >= env.limit:
+            raise Unspec('cumulative call budget accounting')
+
     def nested(self, blk):
         self.scope += 1
         try:
@@ -415,10 +430,7 @@ class VM:
     def pop_script(self):
         if 'disallow_OP_EVAL' in self.flags:
             raise RErr('disallowed', 'OP_EVAL disallowed')
-        if self.depth >= self.env.limit:
-            raise RErr('limit:calls')
-        if self.env.n_calls >= self.env.limit:
-            raise Unspec('cumulative call budget accounting')
+        self.call_gate()
         return self.check_script(self.popb())
 
     def check_script(self, s):
@@ -430,10 +442,7 @@ class VM:
         env = self.env
         if 'disallow_OP_EVAL' in self.flags:
             raise RErr('disallowed', 'OP_EVAL disallowed')
-        if self.depth >= env.limit:
-            raise RErr('limit:calls')
-        if env.n_calls >= env.limit:
-            raise Unspec('cumulative call budget accounting')
+        self.call_gate()
         if self.code_lex != self.level and self.frames[self.code_lex] != (self.defs, self.def_lex):
             raise Unspec('EVAL by an outer function running inside an EVAL body with different definitions')
         env.n_calls += 1
